@@ -127,12 +127,17 @@ def gen_payload(rng, depth=0):
 
 
 def deep_eq(a, b):
+    """Equality of payloads: same types, equal values.  Mappings are equal when they map equal keys to equal values:
+    the ORDER of the keys is no part of an entry (nor is it of a set)."""
     if type(a) is not type(b):
         return False
     if isinstance(a, np.ndarray):
         return a.dtype == b.dtype and a.shape == b.shape and bool(np.array_equal(a, b))
     if isinstance(a, dict):
-        return list(a.keys()) == list(b.keys()) and all(deep_eq(a[k], b[k]) for k in a)
+        if len(a) != len(b):
+            return False
+        keys_b = {k: k for k in b}
+        return all(k in keys_b and deep_eq(k, keys_b[k]) and deep_eq(v, b[k]) for k, v in a.items())
     if isinstance(a, (list, tuple)):
         return len(a) == len(b) and all(deep_eq(x, y) for x, y in zip(a, b))
     if isinstance(a, float):
@@ -186,15 +191,27 @@ BLOCKED = ('dir', 'unreadable')
 PARTIAL = ['partial', 'WAITING', 0]
 
 
+def _as_bytes(data, fobj=None):
+    """What a write call hands over, as bytes (text is encoded the way the file would)."""
+    try:
+        if isinstance(data, str):
+            return data.encode(getattr(fobj, 'encoding', None) or 'utf-8', 'surrogateescape')
+        return bytes(data)
+    except Exception:  # pylint: disable=broad-except
+        return b''
+
+
 class _DyingFile:
     """Stands for the file object that some flavour of open() returned: lets `budget` bytes (characters) through, then
-    the process dies.  What reached the file stays there."""
+    the process dies.  What reached the file stays there.  Everything the implementation hands over -- the call during
+    which the process dies included -- is recorded in rec['data']: these are the bytes the harness SAW being written."""
 
     def __init__(self, real, budget, hooks, rec):
         self.__dict__.update(_real=real, _budget=budget, _hooks=hooks, _rec=rec)
 
     def write(self, data):
         n = len(data)
+        self._rec['data'].append(_as_bytes(data, self._real))
         if self._budget is None or n <= self._budget:
             if self._budget is not None:
                 self.__dict__['_budget'] = self._budget - n
@@ -297,7 +314,7 @@ class _OpenHooks:
         if t is None:
             t, rpath = self.world.task_of(fd)
         if t is not None:
-            rec = dict(t=t, dest=(rpath == self.world.path(t)), err=None, written=0)
+            rec = dict(t=t, dest=(rpath == self.world.path(t)), err=None, written=0, data=[])
             self.recs.append(rec)
             self.fds[fd] = rec
         return fd
@@ -309,6 +326,7 @@ class _OpenHooks:
             return real(fd, data)
         if self.world.task_of(fd)[0] != rec['t']:
             return real(fd, data)            # the descriptor number was re-used for something else
+        rec['data'].append(_as_bytes(data))
         if len(data) <= self.k:
             self.k -= len(data)
             rec['written'] += len(data)
@@ -345,7 +363,7 @@ class _OpenHooks:
             pass
         if t is None:
             return fobj
-        rec = dict(t=t, dest=(path == self.world.path(t)), err=None, written=0)
+        rec = dict(t=t, dest=(path == self.world.path(t)), err=None, written=0, data=[])
         self.recs.append(rec)
         if self.armed and t in self.targets and self.k is not None:
             self.armed = False
@@ -420,10 +438,15 @@ class World:
         self.mem = {}            # t -> (ver, entry object)
         self.entries = {}        # ver -> (t, status, dir, entry)
         self.byt = {}            # t -> [ver, ...]
-        self.ref = {}            # ver -> reference bytes of the complete file
-        self.byref = {}          # (t, bytes) -> ver
+        self.ref = {}            # ver -> bytes of an undisturbed Env.to_file of the entry: ONLY their number is used (to
+        #                          choose crash points); no file is ever recognised by comparing it with them
         self._refobj = {}        # ver -> the object the reference was made from
-        self.disk = {}           # t -> version whose serialization was last started on t's file itself (bookkeeping)
+        self.known = {}          # (t, bytes) -> ver: contents already found to hold exactly {name of t: entry ver}
+        self.wrote = {}          # t -> the bytes the harness SAW being written to t's file itself by a write that did
+        #                          not complete (a crash: everything that went through the wrapped open, the call that
+        #                          died included; a file cut short by the harness: the complete file it cut)
+        self.placed = {}         # t -> the garbage the harness itself put in place of t's file
+        self.loaded = False      # the running process holds what a read returned (entries that cannot be named included)
         self.nver = 1
         self.nsession = 0
         self.garbage = garbage_samples(0)
@@ -463,9 +486,10 @@ class World:
         return ver
 
     def _refbytes(self, ver, entry=None):
-        """Reference content: the real Env.to_file on a scratch path, undisturbed.  An entry that came
-        back from the disk is equal to, but need not serialize to the same bytes as the original
-        (memoisation of shared strings): the reference is renewed from the object about to be written."""
+        """How many bytes a complete file has, about: the real Env.to_file on a scratch path, undisturbed.  Only used to
+        choose crash points inside the file (two writes of one entry need not produce the same bytes, an entry that came
+        back from the disk need not serialize like the original: the reference is renewed from the object about to be
+        written; a crash point beyond the end of the real file is a crash that never happens)."""
         if entry is not None and self._refobj.get(ver) is not entry:
             self.ref.pop(ver, None)
         if ver not in self.ref:
@@ -479,11 +503,10 @@ class World:
             with open(self.scratch, 'rb') as f:
                 self.ref[ver] = f.read()
             os.remove(self.scratch)
-            self.byref[(t, self.ref[ver])] = ver
         return self.ref[ver]
 
     def classify(self, t):
-        """[kind, status, ver] of the file of task t, from what is on the disk."""
+        """[kind, status, ver] of the file of task t, from what is on the disk and what the harness saw being written."""
         p = self.path(t)
         if os.path.islink(p):
             return ['unreadable', 'WAITING', 0]
@@ -495,35 +518,26 @@ class World:
             data = f.read()
         if not data:
             return ['empty', 'WAITING', 0]
-        hint = self.disk.get(t)
-        if hint is not None:
-            ref = self._refbytes(hint)
-            if data == ref:
-                return ['full', self.entries[hint][1], hint]
-            if ref.startswith(data):
-                return list(PARTIAL)
-        if (t, data) in self.byref:
-            v = self.byref[(t, data)]
-            return ['full', self.entries[v][1], v]
-        cands = [v for v in self.byt.get(t, ()) if self.entries[v][2]]
-        for v in cands:
-            if v not in self.ref:
-                self._refbytes(v)
-        if (t, data) in self.byref:
-            v = self.byref[(t, data)]
-            return ['full', self.entries[v][1], v]
-        # not byte-identical to a reference: a complete file is one that holds exactly {name: entry} for an entry that
-        # was created for t (however it was serialized)
+        ver = self.known.get((t, data))
+        if ver is not None:
+            return ['full', self.entries[ver][1], ver]
+        if self.placed.get(t) == data:
+            return ['garbage', 'WAITING', 0]
+        # truncated = a proper prefix of what the harness saw being written to this very file (not of a serialization
+        # made at another time: two writes of one entry need not be byte-identical)
+        seen = self.wrote.get(t)
+        if seen is not None and len(data) < len(seen) and seen.startswith(data):
+            return list(PARTIAL)
+        # complete = the file holds exactly {name: entry} for an entry that was created for t, however it is serialized
         try:
             obj = pickle.loads(data)
             if list(obj.keys()) == ['t%d' % t]:
-                status, v = self._identify(t, obj['t%d' % t])
-                if v > 0:
-                    return ['full', status, v]
+                status, ver = self._identify(t, obj['t%d' % t])
+                if ver > 0:
+                    self.known[(t, data)] = ver
+                    return ['full', status, ver]
         except Exception:  # pylint: disable=broad-except
             pass
-        if any(self.ref[v].startswith(data) for v in cands):
-            return list(PARTIAL)
         return ['garbage', 'WAITING', 0]
 
     def files(self):
@@ -629,7 +643,6 @@ class World:
         """The events of one write_env call.  What the statement leaves open is taken from what was observed (order of
         the files, destination opened or not, where the process died); what it demands is not: when write_env returns,
         every entry with an output directory counts as written."""
-        final = self.files()
         recs = hooks.recs if hooks is not None else []
         first = []
         for rec in recs:
@@ -641,8 +654,16 @@ class World:
         def mode_of(t):
             return 'inplace' if t in onplace and before[t][0] not in BLOCKED else 'keep'
 
+        victim = hooks.crashed if died and hooks is not None else None
+        if victim is not None and k is not None and mode_of(victim) == 'inplace':
+            # the destination now holds what was let through of the bytes that were handed over
+            mine = [r for r in recs if r['t'] == victim and r['dest'] and not r['err']]
+            self.wrote[victim] = b''.join(mine[-1].get('data', ())) if mine else b''
+            self.placed.pop(victim, None)
+        final = self.files()
+
         def complete(t):
-            ver, entry = self.mem[t]
+            entry = self.mem[t][1]
             if 'output_dir' not in entry:
                 events.append(dict(op='skip', t=t))
             elif before[t][0] in BLOCKED and final[t - 1][0] == before[t][0]:
@@ -650,27 +671,25 @@ class World:
             else:
                 events.append(dict(op='begin', t=t, mode=mode_of(t)))
                 events.append(dict(op='end', t=t))
-                self.disk[t] = ver
+                self.wrote.pop(t, None)
+                self.placed.pop(t, None)
         if died:
-            victim = hooks.crashed if hooks is not None else None
             for t in first:
                 if t != victim:
                     complete(t)
             if victim is not None and k is not None:
                 events.append(dict(op='begin', t=victim, mode=mode_of(victim)))
-                if mode_of(victim) == 'inplace':
-                    self.disk[victim] = self.mem[victim][0]
-                    if k > 0:
-                        events.append(dict(op='chunk', t=victim))
+                if mode_of(victim) == 'inplace' and k > 0:
+                    events.append(dict(op='chunk', t=victim))
             events.append(dict(op='crash'))
-            self.mem = {}
+            self.mem, self.loaded = {}, False
         else:
             for t in first + [t for t in order if t not in first]:
                 complete(t)
             if planned:
                 # the crash point was never reached: the process ends normally
                 events.append(dict(op='exit'))
-                self.mem = {}
+                self.mem, self.loaded = {}, False
         # write_env is one call: the files are observed once, after it; the observation is attached to the last
         # event of the segment, the events before it are marked unobserved (files = None -> seen = FALSE)
         for ev in events:
@@ -682,8 +701,8 @@ class World:
         self.log += events
 
     def exit(self):
-        had = bool(self.mem)
-        self.mem = {}
+        had = bool(self.mem) or self.loaded
+        self.mem, self.loaded = {}, False
         if had:
             self._emit(op='exit')
 
@@ -700,16 +719,14 @@ class World:
                 data = f.read()
             if len(data) < 2:
                 return False
-            self._refbytes(cur[2])
-            if self.ref[cur[2]] != data:
-                self.ref[cur[2]] = data
-                self.byref[(t, data)] = cur[2]
             with open(p, 'wb') as f:
                 f.write(data[:1 + which % (len(data) - 1)])
-            self.disk[t] = cur[2]
+            self.wrote[t] = data
+            self.placed.pop(t, None)
             self._emit(op='fault', t=t, kind=kind, which=which)
             return True
-        self.disk.pop(t, None)
+        self.wrote.pop(t, None)
+        self.placed.pop(t, None)
         if os.path.islink(p) or os.path.isfile(p):
             os.remove(p)
         elif os.path.isdir(p):
@@ -717,8 +734,9 @@ class World:
         if kind == 'empty':
             open(p, 'wb').close()
         elif kind == 'garbage':
+            self.placed[t] = self.garbage[which % len(self.garbage)]
             with open(p, 'wb') as f:
-                f.write(self.garbage[which % len(self.garbage)])
+                f.write(self.placed[t])
         elif kind == 'dir':
             os.mkdir(p)
         elif kind == 'unreadable':
@@ -732,14 +750,15 @@ class World:
         try:
             env = read_env(root=self.root, names=list(self.names), filename=FILENAME, fmt='pickle')
         except Exception as ex:  # pylint: disable=broad-except
-            self.mem = {}
+            self.mem, self.loaded = {}, False
             return self._emit(op='read', raised=True, exc=type(ex).__name__, env=[])
         obs = []
-        self.mem = {}
+        self.mem, self.loaded = {}, False
         for name, entry in env.items():
             t = self.names.index(name) + 1 if name in self.names else 0
             status, ver = self._identify(t, entry)
             obs.append(dict(t=t, status=status, ver=ver))
+            self.loaded = self.loaded or t > 0      # (an entry that cannot be named is still in the memory of the process)
             if ver > 0:
                 self.mem[t] = (ver, entry)
         return self._emit(op='read', raised=False, exc='', env=obs)
@@ -768,7 +787,7 @@ class World:
         import copy
         from valjean.cambronne.commands.run import RunCommand
         from valjean.config import Config
-        if self.mem:
+        if self.mem or self.loaded:
             self.exit()
         rd = self.read()
         if rd['raised'] or any(e['ver'] <= 0 for e in rd['env']):
@@ -1514,6 +1533,7 @@ def run_c14(ctx):
 
 def _digest(ctx, drifts, verdict, worlds, ntasks):
     derailed = {}
+    reported = 0
     for (tid, step), clauses in sorted(verdict.items()):
         if 'NotEnabled' in clauses and tid not in derailed:
             derailed[tid] = step
@@ -1534,6 +1554,12 @@ def _digest(ctx, drifts, verdict, worlds, ntasks):
         if 'Files' in clauses:
             drifts.add('files', 'trace %d step %d (%s): files are %s, not what Persist.tla implies' % (tid, step, ev['op'], ev['files']))
         if rest:
+            reported += 1
             _report(ctx, ev, rest, events, ntasks, world.seed, world.kind)
     if len(derailed) > max(3, len(worlds) // 10):
-        raise tlc.MachineryError('%d of %d logs are no behaviours of Persist.tla' % (len(derailed), len(worlds)))
+        if reported:
+            # the violations found before the logs left the specification are what there is to say (a machinery error
+            # would swallow them)
+            drifts.add('derailed', '%d of %d logs are no behaviours of Persist.tla after the violations reported' % (len(derailed), len(worlds)))
+        else:
+            raise tlc.MachineryError('%d of %d logs are no behaviours of Persist.tla' % (len(derailed), len(worlds)))
